@@ -87,6 +87,17 @@ def gen_files(rng, prev=None, typechange=0.04):
                 decls.append(gen_decl(rng, n, part == 'sub', cls))
             else:
                 nd = gen_decl(rng, n, part == 'sub', o['cls'])   # new choices / range / default
+                if o['cls'] == 'i' and rng.random() < 0.6:
+                    # move ONE bound only, keep the other; the default stays inside the new range
+                    keep = rng.choice(['min', 'max'])
+                    nd[keep] = o[keep]
+                    lo = nd['min'] if nd['min'] is not None else -3
+                    hi = nd['max'] if nd['max'] is not None else 30
+                    if lo > hi:
+                        nd['min'], nd['max'] = o['min'], o['max']
+                        lo = nd['min'] if nd['min'] is not None else -3
+                        hi = nd['max'] if nd['max'] is not None else 30
+                    nd['default'] = rng.randint(lo, hi)
                 if rng.random() < 0.7:
                     nd['yield'] = o['yield']
                 decls.append(nd)
@@ -649,6 +660,13 @@ def corpus():
     # -U of a yielding boolean option whose parent is false (bool(parent) is the parent's value)
     H.append({'cfg': cfg0, 'files': plus, 'steps': [
         ['S', []], ['C', [D('b', 'false'), D('sub:b', 'true')]], ['C', [U('sub:b')]], ['C', [D('b', 'true')]], ['R', []]]})
+    # ONE bound of an integer range moves: a stored value outside the new range falls back, one
+    # inside stays, a value in the widened part is accepted by the next configure / reconfigure
+    def ifiles(tmax, smin, smax):
+        return F([mk('s', 's', 'sd'), mk('i', 'i', 3, min=0, max=tmax)], [mk('i', 'i', 5, min=smin, max=smax), mk('q', 's', 'qd')])
+    H.append({'cfg': cfg0, 'files': ifiles(10, 0, 10), 'steps': [
+        ['S', [['i', '8'], ['sub:i', '4']]], ['E', ifiles(5, 0, 6)], ['R', []], ['E', ifiles(50, -5, 6)],
+        ['C', [D('i', '40'), D('sub:i', '-2')]], ['E', ifiles(50, -5, 20)], ['R', []], ['R', [['sub:i', '15']]]]})
     # duplicates on one command line, -D then -U of the same key
     H.append({'cfg': cfg0, 'files': base, 'steps': [
         ['S', [['s', '1'], ['s', '2']]], ['C', [D('sub:werror', 'true'), U('sub:werror')]], ['C', [U('sub:werror'), D('sub:werror', 'true')]],
